@@ -85,8 +85,17 @@ def deterministic_wallet_signing():
     verifier; determinism makes transaction ids reproducible)."""
     import ecdsa
 
+    cache = {}
+
     def sign(self, data, *a, **k):
-        return self.sign_deterministic(data)
+        key = (self.to_string(), bytes(data))
+        r = cache.get(key)
+        if r is None:
+            r = cache[key] = self.sign_deterministic(data)
+        return r
+    if getattr(ecdsa.SigningKey.sign, '_vf', False):
+        return
+    sign._vf = True
     rebind(ecdsa.SigningKey, 'sign', sign)
 
 
